@@ -677,7 +677,21 @@ impl<'a> Explorer<'a> {
                 }
             }
         }
-        let st = live.run.read_state()?;
+        let mut st = live.run.read_state()?;
+        if doc.datamodel == "ecmascript" && self.opts.use_reference {
+            // the ecmascript data model keeps its values inside the script engine, GlobalData.data is
+            // empty: values are observed through marks only, and the state key takes the reference's
+            // values (a deterministic function of the history) so that no two states with different
+            // data are merged
+            st.vars = live
+                .rf
+                .st
+                .vars
+                .iter()
+                .filter(|(k, _)| !k.starts_with('_'))
+                .map(|(k, v)| (k.clone(), v.show()))
+                .collect();
+        }
         if self.opts.use_reference {
             if let Err(e) = compare_state(doc, &live.rf.st, &st, &root_name) {
                 self.violation("idle-state", e, &hist_now);
